@@ -218,4 +218,13 @@ def sameTreeParts : List BTree → List BTree → Bool
   | _, _ => false
 end
 
+/-- `(2,1)` wrapper with a SCALAR second operand and `out` given (`px.ufuncs.f(c, out=o)`):
+`c in self.elem.space` is false at every level, so the code takes the branch
+`if len(out) != len(self.elem): raise …; for x, outp in zip(self.elem, out): x.ufuncs.f(c, out=outp)`,
+which has the loop structure of the `(1,1)` wrapper with the unary function `a ↦ op a c` at the
+leaves (NumPy's `op(x, c, out=out)`). The model states exactly that (by construction); the
+driver executes it (`psinto … arg=s:c`) against the real binary wrapper. -/
+def psBinScalarInto (op : K → K → K) (c : K) (h : Heap K) (x o : BTree) : Option (Heap K) :=
+  psMapInto (fun a => op a c) h x o
+
 end OdlModel.UfuncValue
